@@ -142,6 +142,49 @@ def run(ctx):
         ctx.count(f"layout:{layout}")
         ctx.count(f"cores:{cores}")
         ctx.sample(cell)
+    # several record outputs in one run, each with its own extension and container: every file gets the format of *its own* name
+    for _ in range(ctx.scale(16, 300)):
+        r1, _r2 = pipe.gen_reads(rng, 10, ["GATTACAGA"], [], False, with_qual=True)
+        r1 = [(f"r{i}", s_, q_) for i, (n_, s_, q_) in enumerate(r1)]
+        def nm(stem):
+            return stem + "." + rng.choice(["fasta", "fa", "fastq", "fq", "fastq", "fasta"]) + rng.choice(CONTAINERS)
+        outs = {"too-short": nm("short"), "too-long": nm("long"), "untrimmed": nm("ut"), "main": nm("out")}
+        use = [k for k in ("too-short", "too-long", "untrimmed") if rng.random() < 0.7]
+        argv = ["-a", "a0=GATTACAGA"]
+        if "too-short" in use:
+            argv += ["-m", "12", "--too-short-output", "{dir}/" + outs["too-short"]]
+        if "too-long" in use:
+            argv += ["-M", "30", "--too-long-output", "{dir}/" + outs["too-long"]]
+        if "untrimmed" in use:
+            argv += ["--untrimmed-output", "{dir}/" + outs["untrimmed"]]
+        demux = rng.random() < 0.3
+        main = ("dm-{name}." + outs["main"].split(".", 1)[1]) if demux else outs["main"]
+        argv += ["-o", "{dir}/" + main, "{dir}/in.fastq"]
+        cores = rng.choice([1, 2])
+        res, out = run_one(argv, {"in.fastq": clirun.fastq(r1)}, cores)
+        ctx.evaluations += 1
+        cell = dict(multi_output=True, argv=argv, cores=cores)
+        if res.status != 0:
+            ctx.failures.append(Failure("C19/run-failed", "cutadapt failed on a valid combination of output files", cell, res.stderr[-300:], 0))
+            continue
+        seen = []
+        for fn, text in out.items():
+            expf = expected_format(fn, False, True)
+            gotf = fmt_of(text)
+            corr.append((f"outfmt {fn} 0 1 {int(cores > 1)}", gotf if gotf != "empty" else expf))
+            if gotf not in (expf, "empty"):
+                ctx.failures.append(Failure("C19/format-not-by-name-multiple-outputs", "with several output files in one run, a file did not get the format of its own name",
+                                            dict(cell, file=fn), gotf, expf))
+            try:
+                seen += [(a, b) for a, b, _ in clirun.parse_fastx(text)]
+            except Exception as e:
+                ctx.failures.append(Failure("C19/format-not-by-name-multiple-outputs", "an output file is not parseable in the format of its name", dict(cell, file=fn),
+                                            str(e), expf))
+        if sorted(a for a, b in seen) != sorted(n_ for n_, s_, q_ in r1):
+            ctx.failures.append(Failure("C19/records-differ", "the records over all output files are not the input reads", cell, sorted(a for a, b in seen), None))
+        ctx.count("multi-output-runs")
+        if len(out) > 1:
+            ctx.nontriv("multi:" + str(argv))
     # standard output: `--fasta` forces FASTA, otherwise the input format; single-end and interleaved, one core and two
     import os
     import subprocess
